@@ -218,6 +218,14 @@ impl Ldap {
         Ok((result, exop, sasl_creds))
     }
 
+    /// Controls, timeout and search options apply to the next operation invoked on the
+    /// handle; an operation rejected before being sent consumes them, too.
+    fn discard_modifiers(&mut self) {
+        self.controls = None;
+        self.timeout = None;
+        self.search_opts = None;
+    }
+
     /// Use the provided `SearchOptions` with the next Search operation, which can
     /// be invoked directly on the result of this method. If this method is used in
     /// combination with a non-Search operation, the provided options will be silently
@@ -616,6 +624,7 @@ impl Ldap {
             ],
         });
         if any_empty {
+            self.discard_modifiers();
             return Err(LdapError::AddNoValues);
         }
         Ok(self.op_call(LdapOp::Single, req).await?.0)
@@ -737,6 +746,7 @@ impl Ldap {
             ],
         });
         if any_add_empty {
+            self.discard_modifiers();
             return Err(LdapError::AddNoValues);
         }
         Ok(self.op_call(LdapOp::Single, req).await?.0)
